@@ -13,12 +13,12 @@ TRUSTED = [
     "(outcome class of parse() on the whole text == outcome class of the model on the element stream pest produced and the verdict bits observed by parsing each element alone in the smallest block accepting it)",
     "the argument parsers of the individual tags and the filter-chain construction are not modelled (input bits of the block model); their panic freedom is explored (catch_unwind, process exit status and a wall-clock limit on every enumerated text), not proved",
 ]
-RULE = ("every sequence of up to 3 (thorough: 4) lexemes over a 70-lexeme alphabet — delimiters with and without trim markers, every stdlib tag/block keyword with its end/else/when/elsif forms, operators, literals incl. 20-digit integers, signs, both quote styles and "
+RULE = ("every sequence of up to 3 (thorough: 4) lexemes over a 95-lexeme alphabet — delimiters with and without trim markers, every stdlib tag/block keyword with its end/else/when/elsif forms, operators, literals incl. 20-digit integers, signs, both quote styles and "
         "unterminated quotes, identifiers, non-ASCII text, tabs, stray braces; random token soups up to 14 lexemes; character-level delete/duplicate/transpose mutations of generated well-formed templates; nesting up to depth 32; "
         "exhaustive sequences of up to 2 (thorough: 3) whole elements over 49 (every block keyword with accepted, rejected and superfluous arguments, closers with arguments, invalid tokens) and well-formed block nestings with 0-3 injected faults (replace/delete/insert/swap); "
         "parser configurations stdlib, stdlib+jekyll+shopify+extra, empty; a list of texts the language rejects, each of which must be an error with a message; non-trivial = the text is rejected or contains markup")
 
-LEX = ["{{", "}}", "{%", "%}", "{{-", "-}}", "{%-", "-%}", " ", "\t", "\n", "x", "y.z", "a[0]", "é", "'s'", '"d"', "'", '"', "1", "-1", "1.5", "99999999999999999999", "-99999999999999999999", "+", "-", "..", "(1..3)", "(", ")",
+LEX = ["{{", "}}", "{%", "%}", "{{-", "-}}", "{%-", "-%}", " ", "\t", "\n", "x", "y.z", "a[0]", "é", "'s'", '"d"', "'", '"', "1", "-1", "1.5", "99999999999999999999", "-99999999999999999999", "9223372036854775807", "9223372036854775808", "-9223372036854775808", "-9223372036854775809", "9999999999999999999", "+", "-", "..", "(1..3)", "(", ")",
        "|", ":", ",", "=", "==", "!=", "<>", "<", ">", "<=", ">=", "contains", "and", "or", "true", "nil", "empty", "blank",
        "if", "elsif", "else", "endif", "unless", "endunless", "case", "when", "endcase", "for", "in", "endfor", "break", "continue", "tablerow", "endtablerow", "cols:", "limit:", "offset:", "reversed",
        "assign", "capture", "endcapture", "increment", "decrement", "cycle", "raw", "endraw", "comment", "endcomment", "ifchanged", "endifchanged", "include", "render", "with", "as", "upcase", "plus: 1", "{", "}", "%", "foo"]
@@ -29,11 +29,11 @@ CORE4 = ["{{", "}}", "{%", "%}", "{%-", " ", "x", "'", "99999999999999999999", "
 
 MUST_FAIL = ["{% unknown_tag %}", "{{ x | no_such_filter }}", "{{ x | upcase: 1 }}", "{{ x | plus }}", "{{ x | plus: 1, 2 }}", "{{ x | slice }}", "{% if x %}", "{% if x %}a{% endfor %}", "{% endif %}", "{% else %}", "{% elsif x %}", "{% when 1 %}",
              "{% for %}", "{% for x %}", "{% for x in %}{% endfor %}", "{% for x in y %}", "{% case %}{% endcase %}", "{% case x %}", "{% capture %}{% endcapture %}", "{% capture x %}", "{% raw %}", "{% comment %}", "{% tablerow x in y %}",
-             "{{ 99999999999999999999 }}", "{{ -99999999999999999999 }}", "{% assign x = 99999999999999999999 %}", "{% if 99999999999999999999 %}{% endif %}", "{% for i in (1..99999999999999999999) %}{% endfor %}",
+             "{{ 99999999999999999999 }}", "{{ -99999999999999999999 }}", "{{ 9223372036854775808 }}", "{{ -9223372036854775809 }}", "{{ 1 | plus: 9999999999999999999 }}", "{{ a[9223372036854775808] }}", "{% if x == 9999999999999999999 %}{% endif %}", "{% assign x = 99999999999999999999 %}", "{% if 99999999999999999999 %}{% endif %}", "{% for i in (1..99999999999999999999) %}{% endfor %}",
              "{{ 'unterminated }}", '{{ "unterminated }}', "{{", "{%", "{{ x", "{% if", "{{ }}", "{% %}", "{{ x }", "{% assign %}", "{% assign x %}", "{% assign x = %}", "{% assign = 1 %}", "{% increment %}", "{% cycle %}", "{% cycle a: %}",
              "{% include %}", "{% render %}", "{% if x == %}{% endif %}", "{% if == 1 %}{% endif %}", "{% if x and %}{% endif %}", "{% unless %}{% endunless %}", "{% if x %}{% else %}{% else x %}{% endif %}", "{% endraw %}", "{% endcomment %}",
              "{% for x in y limit %}{% endfor %}", "{% for x in y limit: %}{% endfor %}", "{% tablerow x in y cols %}{% endtablerow %}", "{% if x %}{% endif x %}", "{% raw x %}{% endraw %}", "{% comment %}{% if x %}", "{% comment %}{% raw %}{% endcomment %}",
-             "{{ x | }}", "{{ | upcase }}", "{{ x || upcase }}", "{{ x.y. }}", "{{ x[ }}", "{{ x[] }}", "{{ x..y }}", "{{ (1..3) }}", "{{ 1.. }}", "{% ifchanged %}", "{% break x %}", "{% continue 1 %}"]
+             "{% assign z = \"\n{{ 'a\" %}{{ b' }}", "{{ x | }}", "{{ | upcase }}", "{{ x || upcase }}", "{{ x.y. }}", "{{ x[ }}", "{{ x[] }}", "{{ x..y }}", "{{ (1..3) }}", "{{ 1.. }}", "{% ifchanged %}", "{% break x %}", "{% continue 1 %}"]
 MUST_PARSE = ["", "plain", "}}", "%}", "{ {", "{{ x }}", "{{ x | upcase }}", "{% if x %}{% endif %}", "{% case x %}{% else %}{% endcase %}", "{% case x %}{% endcase %}", "{% comment %}{{ bad {% endcomment %}", "{% raw %}{{ {% endraw %}",
               "{% comment %}{% if x %}{{ bad {% endif %}{% endcomment %}", "{% comment %}{% unknown %}{% endcomment %}", "{{ 9223372036854775807 }}", "{{ -9223372036854775808 }}", "{%\tif x\t%}{%\tendif\t%}", "{{ x['a'][0].b }}",
               "{% for i in (1..3) reversed limit:1 offset:1 %}{% else %}{% endfor %}", "{% tablerow i in x cols:2 %}{% endtablerow %}", "{% cycle 'a': 1, 2 %}", "{% ifchanged %}{% endifchanged %}", "{% break %}", "{% continue %}"]
@@ -217,6 +217,11 @@ def gen(tier, seed):
             add("{% comment %}" + opener * d + "{{ bad " + closer * d + "{% endcomment %}", "invalid token in blocks inside a comment")
     for t, w in block_texts(tier, seed).items():
         add(t, w)
+    # an invalid token after an element that ended on the same line: parse_pair re-parses the line prefix + the rest
+    for a, b, c, d in itertools.product(['{% assign z = "', "{% assign z = '", '{{ "', "{{ '", '{% if "'], ["{{ 'a", '{{ "a', "{% if 'a", "{{ x | append: 'a", "x", "é{{ 'a"],
+                                        ['" %}', "' %}", '" }}', "' }}"], ["{{ b' }}", '{{ b" }}', "{{ b' | upcase }}", "{% if b' %}", "{{ 'c", "{% b' %}{{ 'x' }}", "{{ b }"]):
+        add(a + "\n" + b + c + d, "invalid token after a multi-line element")
+        add("t\n" + b + c + d, "invalid token after a multi-line element")
     for t in MUST_FAIL:
         add(t, "must be rejected")
     for t in MUST_PARSE:
@@ -242,7 +247,7 @@ def main(tier, seed):
     outcome = {}
     must_fail, must_parse = set(MUST_FAIL), set(MUST_PARSE)
     for config in ("stdlib", "all", "empty"):
-        sub = cases if config == "stdlib" else [c for c in cases if c["why"] in ("must be rejected", "must be accepted", "random token soup", "character mutation of a well-formed template", "nesting", "unclosed blocks inside a comment")
+        sub = cases if config == "stdlib" else [c for c in cases if c["why"] in ("must be rejected", "must be accepted", "random token soup", "invalid token after a multi-line element", "character mutation of a well-formed template", "nesting", "unclosed blocks inside a comment")
                                                   or c["why"].startswith("exhaustive lexeme sequences (length 2") or c["why"].startswith("exhaustive lexeme sequences (length 1")]
         reqs = [{"id": c["id"], "kind": "parse", "config": config, "tpl": c["text"]} for c in sub]
         resps, problems = lv.run_harness(binp, reqs, tag="C01" + config, timeout=900)
